@@ -264,12 +264,15 @@ class Broker:
         else:
             self.queues[queue] = collections.deque()
             self.qmeta[queue] = meta
+        ch.last_declared = queue       # AMQP: an empty queue name later means "the last queue declared on this channel"
         qtype = (meta["arguments"] or {}).get("x-queue-type", "classic")
         self.rec.op("qdeclare", conn=ch.connection.name, ch=ch.gid, q=queue, durable=meta["durable"],
                     exclusive=meta["exclusive"], autodelete=meta["auto_delete"], qtype=qtype)
         return True, queue, ""
 
     def queue_bind(self, ch, queue, exchange, key, arguments):
+        if queue == "" and getattr(ch, "last_declared", ""):
+            queue = ch.last_declared
         if queue not in self.queues:
             return False, 404, "NOT_FOUND - no queue '%s' in vhost '/'" % queue
         if exchange not in self.exchanges:
